@@ -45,6 +45,7 @@ type FuncSpec struct {
 	Inline   bool
 	NoReturn bool // calling it never returns (log.Fatal, os.Exit): treated as panic
 	NoEscape bool // structural: recover-frame rule
+	FuncType bool // contract of a function type (applies to dynamic calls)
 	Trusted  bool // repository function whose contract is used but not verified (listed as assumption)
 	Nopanic  bool // shorthand for all safety checks
 	File     string
@@ -176,6 +177,15 @@ func (s *Specs) loadSpecFile(path, pkgPath string, assumed bool) error {
 					s.Nullable[pkgPath+"."+n] = true
 				}
 			}
+		case "functype":
+			// contract for calls through function values of this (named or literal) type
+			name := strings.TrimSpace(rest)
+			key := "functype:" + name
+			if pkgPath != "" && !strings.HasPrefix(name, "func(") {
+				key = "functype:" + pkgPath + "." + name
+			}
+			cur = &FuncSpec{Key: key, Pkg: pkgPath, Name: name, Checks: map[string]bool{}, Loops: map[int]*LoopSpec{}, Assumed: true, File: where, FuncType: true}
+			s.Funcs[key] = cur
 		case "func":
 			name := strings.TrimSpace(rest)
 			key := name
